@@ -108,7 +108,7 @@ def gen_case(rng, tier):
         coll[0].append([base + 1.5 * span, base + 1.5 * span + 2.2 * span])
         idata.append(coll)
     ops = []
-    for _ in range(rng.randint(2, 14)):
+    for _ in range(rng.randint(2, 14 if tier == "quick" else 32)):
         k = rng.randrange(K)
         kind = rng.choice(("fit", "fit", "transform", "transform", "fit_transform", "transform2"))
         op = {"inst": k, "op": kind, "data": rng.randrange(n_data)}
